@@ -110,10 +110,11 @@ structure Obs (σ π : Type) where
   appends : List (Append σ π)
   sent : List (Sent π)
   snaps : List (Snap σ)
+  purges : List (σ × Nat × Nat) := []  -- (session, stream, n): the store now holds the log of that stream from index n on
 
 inductive Clause08 where
   | malformedId | otherStream | repeated | gap | noEntry | payloadDiffers
-  | resumeIncomplete | lastIdx | attachedIncomplete
+  | resumeIncomplete | lastIdx | attachedIncomplete | purgedNotReported
 deriving DecidableEq, Repr
 
 inductive RouteClause where
@@ -136,6 +137,7 @@ def Clause08.text : Clause08 → String
   | .resumeIncomplete => "C08: the resume did not deliver every stored message after Last-Event-ID (lost, or duplicated)"
   | .lastIdx => "C08: lastIdx of an attached stream is not the index of the last stored event"
   | .attachedIncomplete => "C08: an attached, healthy exchange has not received every message written to its stream"
+  | .purgedNotReported => "C08: a resume from a position the store has evicted was answered with a stream instead of an error (purged messages silently skipped)"
 
 def RouteClause.text : RouteClause → String
   | .respOtherId => "response carries another id than the request it answers"
@@ -185,6 +187,7 @@ structure MonS (σ π : Type) where
   exs : Nat → Option (MEx σ) := fun _ => none
   logs : σ → Nat → List (Option π) := fun _ _ => []      -- ground truth: appended payloads per (session, stream)
   posts : σ → Nat → Option Nat := fun _ _ => none       -- (session, stream) ↦ POST exchange that created it
+  first : σ → Nat → Nat := fun _ _ => 0                 -- (session, stream) ↦ entries the store has evicted from the front of the log
 
 /-- the monitor before the first record -/
 def init {σ π : Type} (store jsonMode : Bool) : MonS σ π := { store := store, jsonMode := jsonMode }
@@ -433,13 +436,28 @@ def checkSnap (m : MonS σ π) (s : Snap σ) : Option Clause08 :=
 def quiesce (m : MonS σ π) (o : Obs σ π) : Option Clause08 :=
   if m.store then (o.opened.findSome? (checkResume m)) <|> (o.snaps.findSome? (checkSnap m)) else none
 
+/-! ### evictions -/
+
+/-- a resume from an evicted position must be answered with an error: judged against what had been evicted *before*
+this record (an eviction within the record may have happened after the GET was served) -/
+def checkPurged (m : MonS σ π) (o : Obs σ π) (x : Nat × Bool) : Option Clause08 :=
+  if x.2 && o.origin.isGet then
+    match o.origin.stream with
+    | some t => if o.origin.from < m.first o.sess t then some .purgedNotReported else none
+    | none => none
+  else none
+
+def applyPurges (m : MonS σ π) (l : List (σ × Nat × Nat)) : MonS σ π :=
+  l.foldl (fun m x => { m with first := fun s t => if s = x.1 ∧ t = x.2.1 then max (m.first s t) x.2.2 else m.first s t }) m
+
 /-! ### one record -/
 
 def step (prov : π → Prov σ) (m : MonS σ π) (o : Obs σ π) : MonS σ π × Viol :=
   let m1 := learnIds (learnRows (openAll m o) o) o
   let r2 := foldV (appendOne prov) m1 o.appends
   let r3 := foldV (evStep prov) r2.1 o.sent
-  (r3.1, (r2.2.or r3.2).or { v08 := quiesce r3.1 o })
+  (applyPurges r3.1 o.purges,
+   (({ v08 := if m.store then o.opened.findSome? (checkPurged m o) else none } : Viol).or (r2.2.or r3.2)).or { v08 := quiesce r3.1 o })
 
 /-- a whole trace: the state after it and the first violation of each property, if any -/
 def runV (prov : π → Prov σ) (m : MonS σ π) (tr : List (Obs σ π)) : MonS σ π × Viol := foldV (step prov) m tr
